@@ -374,6 +374,9 @@ Proof.
     + apply advance_InvD; assumption.
     + apply (InvC_frame s); [reflexivity..|exact HC].
   - (* SubscribeCall *) intros [= <-]. framed HD HC s.
+  - (* CancelPending *)
+    destruct (nth_error (pend_subs s) j) as [[id [p c]]|]; [|discriminate]. intros [= <-].
+    framed HD HC s.
   - (* Cancel *) intro H. apply with_sub_some in H as [x ->]. framed HD HC s.
   - (* Want *) intro H. apply with_sub_some in H as [x ->]. framed HD HC s.
   - (* WantAll *) intro H. apply with_sub_some in H as [x ->]. framed HD HC s.
